@@ -118,6 +118,13 @@ Theorem C06_ws_total : forall m, ws_next m <> WBad EFuel.
 Proof. exact ws_next_total. Qed.
 Print Assumptions C06_ws_total.
 
+(* both transports, any size the encoder accepts (this is what the harness op OBigFrame samples at
+   0 ... 2^24-1 bytes): the framed packet is handed up intact, whatever its n body bytes are *)
+Theorem C06_big_frame : forall t n h body, pkt_header t n = Ok h -> len body = n ->
+  ws_frames [h ++ body] = ([h ++ body], None) /\ read_frames (h ++ body) = ([h ++ body], FClosed).
+Proof. exact big_frame. Qed.
+Print Assumptions C06_big_frame.
+
 Example C06_example_ws :
   ws_frames [[4; 0; 0; 2; 9; 9]; [3; 0; 0; 0]; [4; 0; 0; 2; 9]; [3; 0; 0; 0]] = ([[4; 0; 0; 2; 9; 9]; [3; 0; 0; 0]], Some WShort) /\
   ws_next [4; 0; 0; 1; 9; 9] = WBig /\ ws_next [4; 0] = WBad EPktHeader /\ ws_next [9; 0; 0; 0] = WBad EPktType.
